@@ -96,6 +96,14 @@ fn row_major_strict(ps: &[Point]) -> bool {
 
 fn check_triangle(p: [Point; 3]) -> Result<usize, String> {
     let t = Triangle::new(p[0], p[1], p[2]);
+    // constructors: new keeps the vertices in the given order, from_slice builds the same triangle
+    if t.vertices != [p[0], p[1], p[2]] {
+        return Err(format!("Triangle::new({:?}, {:?}, {:?}).vertices = {:?}", p[0], p[1], p[2], t.vertices));
+    }
+    let fs = Triangle::from_slice(&t.vertices);
+    if fs != t || fs.vertices != [p[0], p[1], p[2]] {
+        return Err(format!("Triangle::from_slice({:?}) = {:?}, expected {:?}", t.vertices, fs, t));
+    }
     let pts: Vec<Point> = t.points().collect();
     let set: BTreeSet<(i32, i32)> = pts.iter().map(|q| (q.y, q.x)).collect();
     if set.len() != pts.len() {
@@ -418,7 +426,18 @@ fn check_pair(a: Point, b: Point, c: Point, d: Point) -> Result<usize, String> {
 }
 
 fn check_polyline(tr: Point, vs: &[Point]) -> Result<usize, String> {
+    // constructor: new keeps the vertex slice and starts with translate (0,0); translate only changes the translate field
+    let p0 = Polyline::new(vs);
+    if p0.vertices != vs {
+        return Err(format!("Polyline::new({:?}).vertices = {:?}", vs, p0.vertices));
+    }
+    if p0.translate != Point::zero() {
+        return Err(format!("Polyline::new(..).translate = {:?}, expected (0, 0)", p0.translate));
+    }
     let pl = Polyline::new(vs).translate(tr);
+    if pl.vertices != vs || pl.translate != tr {
+        return Err(format!("Polyline::translate({:?}): vertices {:?} translate {:?}", tr, pl.vertices, pl.translate));
+    }
     // reference: first segment's line, then every following segment's line without its first point
     let mut want: Vec<Point> = Vec::new();
     for (i, w) in vs.windows(2).enumerate() {
